@@ -118,6 +118,17 @@ def cases(seed, tier):
         d["bck"] = rng.choice(BCK)
         d["loss"] = "spectral" if rng.random() < 0.15 else "group"
         out.append(d)
+    # ---- directed: one repeated eigenvalue fills the whole space (A = e M), every path and backward solver
+    k = 0
+    for n in (2, 3):
+        for method in ("exacteig", "custom_exacteig", "davidson"):
+            for withM in (False, True):
+                for bck in (("default", "exactsolve", "cg") if tier == "quick" else ("default", "exactsolve", "cg", "bicgstab")):
+                    out.append({"group": "eigdeg", "seed": sub_seed(seed, "c06f", k), "method": method, "M": withM,
+                                "dtype": "float64" if (method == "davidson" or k % 2) else "complex128", "n": n, "opkind": "dense",
+                                "mkind": "dense", "mult": [n], "mode": "lowest", "ngroups_sel": 1, "gap": 1.0, "batch": k % 3,
+                                "mixed": False, "bck": bck, "loss": "group"})
+                    k += 1
     # ---- separated singular values
     for i in range(N[2]):
         rng = random.Random(sub_seed(seed, "c06s", i))
